@@ -71,7 +71,21 @@ def run(ctx):
     jobs = []
     import random
     rnd = random.Random(ctx.seed + 13)
+    # the TLA+ decoder costs about 0.1-1 ms per byte in TLC: the volume of very large inputs is bounded (every size class once, at
+    # most ~700 kB of streams over 20 kB in a run; everything up to 20 kB always)
+    budget = 700000
+    seen_sizes = set()
     for j in base:
+        big_n = j.get("pair", 0)
+        if big_n > 70000:
+            continue
+        if big_n > 20000:
+            if (big_n, j.get("where")) in seen_sizes or j.get("tag") == "huge-small" or budget < big_n:
+                continue
+            seen_sizes.add((big_n, j.get("where")))
+            budget -= big_n
+        if j.get("tag") == "large" and sum(len(f.get("metrics", [])) for c in j["calls"][-1:] for f in c.get("lit", []) if isinstance(f, dict)) > 3000:
+            continue      # 5000-sample families are left to C04
         calls = [c for c in j["calls"] if c["op"] != "text_encode"]
         fj = calls.pop()                      # families_json (kept last but one)
         src = {k: v for k, v in fj.items() if k in ("lit", "reg", "fam")}
@@ -87,7 +101,7 @@ def run(ctx):
     # families of type UNTYPED and empty help are legal protobuf too
     extra = [{"name": "u", "help": "", "type": "UNTYPED", "metrics": [{"labels": [["a", "b"]], "ts": -1}]},
              {"name": "s", "help": "h", "type": "SUMMARY", "metrics": [{"labels": [], "summary": {"count": 2 ** 40, "sum": F(1.5), "q": [[F(0.5), F(float("nan"))]]}}]}]
-    jobs.append({"id": len(jobs), "calls": [{"op": "families_json", "lit": extra}, {"op": "pb_encode", "lit": extra}], "tag": "untyped"})
+    jobs.append({"id": 10 ** 6, "calls": [{"op": "families_json", "lit": extra}, {"op": "pb_encode", "lit": extra}], "tag": "untyped"})
     # refusal: a family without a name / without samples is refused, and nothing of it is written
     good = {"name": "g", "help": "h", "type": "GAUGE", "metrics": [{"labels": [], "gauge": F(1.0)}]}
     refusals = []
